@@ -1653,10 +1653,13 @@ def _parse_function(
     signature_aliases.setdefault(name, {})
     defs.setdefault(name, {})
 
+    # a function body sees module-level names only: a variant requested from inside
+    # another helper must not inherit that helper's parameters and locals
+    scope_ctx: Dict[str, object] = ctx.get("_module_ctx", ctx)  # type: ignore[assignment]
     child_ctx: Dict[str, object] = dict(ctx)
-    child_ctx["vars"] = dict(ctx.get("vars", {}))
-    child_ctx["var_types"] = dict(ctx.get("var_types", {}))
-    child_ctx["var_declared"] = set(ctx.get("var_declared", set()))
+    child_ctx["vars"] = dict(scope_ctx.get("vars", {}))
+    child_ctx["var_types"] = dict(scope_ctx.get("var_types", {}))
+    child_ctx["var_declared"] = set(scope_ctx.get("var_declared", set()))
     child_ctx["_base_declared"] = set(child_ctx["var_declared"])
     child_ctx["globals"] = ctx.setdefault("globals", [])
     child_ctx["helpers"] = helpers_set
@@ -4337,6 +4340,7 @@ def _parse_source(src: str) -> Program:
         "potentiometer_pins": {},
     }
     ctx["vars"]["_helpers"] = ctx["helpers"]
+    ctx["_module_ctx"] = ctx
 
     i = 0
     while i < len(lines):
